@@ -15,6 +15,7 @@ import (
 	"math/rand"
 	"os"
 	"sort"
+	"strconv"
 )
 
 // Ctx is handed to every stream.
@@ -57,6 +58,10 @@ func main() {
 	switch os.Args[1] {
 	case "spork-halt-child":
 		sporkHaltChild()
+	case "rpcserver-child":
+		sd, _ := strconv.ParseInt(os.Args[2], 10, 64)
+		nr, _ := strconv.Atoi(os.Args[3])
+		rpcServerChild(sd, nr)
 	case "facts":
 		fs := flag.NewFlagSet("facts", flag.ExitOnError)
 		out := fs.String("out", "", "output directory for Gen/*.lean")
